@@ -9,7 +9,7 @@ pub mod types;
 mod directory;
 mod pack;
 
-use std::collections::HashMap;
+use std::collections::{BTreeSet,HashMap};
 use a2kit_macro::DiskStruct;
 use std::str::FromStr;
 use std::fmt::Write;
@@ -897,7 +897,16 @@ impl Disk {
         self.write_entry(loc, &entry)?;
         return Ok(());
     }
-    fn glob_node(&mut self,pattern: &str,dir_block: u16,case_sensitive: bool) -> Result<Vec<String>,DYNERR> {
+    /// Call upon reaching each block of a directory walk; a block that was already visited means the
+    /// directory links form a cycle (corrupted volume), which would otherwise be followed forever.
+    fn first_visit(visited: &mut BTreeSet<u16>,block: u16) -> STDRESULT {
+        if visited.insert(block) {
+            return Ok(());
+        }
+        error!("directory block {} is linked more than once, aborting",block);
+        Err(Box::new(Error::EndOfData))
+    }
+    fn glob_node(&mut self,pattern: &str,dir_block: u16,case_sensitive: bool,visited: &mut BTreeSet<u16>) -> Result<Vec<String>,DYNERR> {
         // this blindly searches everywhere, we could be more efficient by truncating based on the pattern
         let mut files = Vec::new();
         let glob = match case_sensitive {
@@ -906,6 +915,7 @@ impl Disk {
         };
         let mut curr = dir_block;
         while curr>0 {
+            Self::first_visit(visited,curr)?;
             let dir = self.get_directory(curr as usize)?;
             for loc in dir.entry_locations(curr) {
                 let entry = dir.get_entry(&loc);
@@ -923,7 +933,7 @@ impl Disk {
                     if entry.storage_type()==StorageType::SubDirEntry {
                         trace!("descend into directory {}",key);
                         self.curr_path.push(key + "/");
-                        files.append(&mut self.glob_node(pattern,entry.get_ptr(),case_sensitive)?);
+                        files.append(&mut self.glob_node(pattern,entry.get_ptr(),case_sensitive,visited)?);
                     }
                 }
             }
@@ -933,10 +943,11 @@ impl Disk {
         Ok(files)
     }
     /// Output ProDOS directory as a JSON object, calls itself recursively
-    fn tree_node(&mut self,dir_block: u16,include_meta: bool) -> Result<json::JsonValue,DYNERR> {
+    fn tree_node(&mut self,dir_block: u16,include_meta: bool,visited: &mut BTreeSet<u16>) -> Result<json::JsonValue,DYNERR> {
         let mut files = json::JsonValue::new_object();
         let mut curr = dir_block;
         while curr>0 {
+            Self::first_visit(visited,curr)?;
             let dir = self.get_directory(curr as usize)?;
             for loc in dir.entry_locations(curr) {
                 let entry = dir.get_entry(&loc);
@@ -945,7 +956,7 @@ impl Disk {
                     files[&key] = json::JsonValue::new_object();
                     if entry.storage_type()==StorageType::SubDirEntry {
                         trace!("descend into directory {}",key);
-                        files[&key]["files"] = self.tree_node(entry.get_ptr(),include_meta)?;
+                        files[&key]["files"] = self.tree_node(entry.get_ptr(),include_meta,visited)?;
                     }
                     if include_meta {
                         files[&key]["meta"] = entry.meta_to_json();
@@ -993,7 +1004,9 @@ impl super::DiskFS for Disk {
             "MODIFIED".bold(),"CREATED".bold(),"ENDFILE".bold(),"SUBTYPE".bold());
         println!();
         let mut curr = b;
+        let mut visited = BTreeSet::new();
         while curr>0 {
+            Self::first_visit(&mut visited,curr)?;
             dir = self.get_directory(curr as usize)?;
             for loc in dir.entry_locations(curr) {
                 let entry = dir.get_entry(&loc);
@@ -1013,7 +1026,9 @@ impl super::DiskFS for Disk {
     fn catalog_to_vec(&mut self, path: &str) -> Result<Vec<String>,DYNERR> {
         let mut ans = Vec::new();
         let mut curr = self.find_dir_key_block(path)?;
+        let mut visited = BTreeSet::new();
         while curr>0 {
+            Self::first_visit(&mut visited,curr)?;
             let dir = self.get_directory(curr as usize)?;
             for loc in dir.entry_locations(curr) {
                 let entry = dir.get_entry(&loc);
@@ -1030,10 +1045,11 @@ impl super::DiskFS for Disk {
         let dir_block = self.find_dir_key_block("/")?;
         let vol_path = ["/",&vhdr.name(),"/"].concat();
         self.curr_path = vec![vol_path.clone()];
+        let mut visited = BTreeSet::new();
         if pattern.starts_with("/") {
-            self.glob_node(pattern, dir_block, case_sensitive)
+            self.glob_node(pattern, dir_block, case_sensitive, &mut visited)
         } else {
-            self.glob_node(&(vol_path + pattern), dir_block, case_sensitive)
+            self.glob_node(&(vol_path + pattern), dir_block, case_sensitive, &mut visited)
         }
     }
     fn tree(&mut self,include_meta: bool,indent: Option<u16>) -> Result<String,DYNERR> {
@@ -1041,7 +1057,7 @@ impl super::DiskFS for Disk {
         let dir_block = self.find_dir_key_block("/")?;
         let mut tree = json::JsonValue::new_object();
         tree["file_system"] = json::JsonValue::String(FS_NAME.to_string());
-        tree["files"] = self.tree_node(dir_block,include_meta)?;
+        tree["files"] = self.tree_node(dir_block,include_meta,&mut BTreeSet::new())?;
         tree["label"] = json::JsonValue::new_object();
         tree["label"]["name"] = json::JsonValue::String(vhdr.name());
         if let Some(spaces) = indent {
